@@ -35,7 +35,7 @@ type C10Scenario struct {
 
 func (C10) ID() string { return "C10" }
 func (C10) Rule() string {
-	return "(image) MaxFileBytes = L in {1,7,512}; 1-4 layers (empty history entries interleaved, broken histories included) whose archives hold regular files of size L-1, L, L+1, 2L (and a few unrelated sizes) over <=6 paths, rewritten across layers and now and then twice within one archive, seeded stream chunking; loaded with the real FromV1Image (simulated v1.Image) or FromTarball (real docker-save tarball); evaluation = one image load + observation of every chain-layer view (recursive walk and direct Stat/Open of every path) + snapshot of ExtractDir while the image is alive; non-trivial = the image holds at least one file of size >= L and one below. Container-scan configuration (1 in 3 scenarios): 2-5 layers rewriting 1-2 package-list files with 0-7 nine-byte lines each (deleted / re-created in between) so that the size of a path crosses MaxFileSize = L in {15, 30, 45} between layers; real Scanner.ScanContainer (main scan + trace.PopulateLayerDetails re-running filesystem.Run on older views) optionally a symlink to a list file that the extractor requires too and ReadSymlinks (3 in 4); a harness extractor records Info.Size() and the bytes it could read for EVERY file it is handed; then cancel() is delivered from inside the k-th Extract call for EVERY k of the fault-free run (main scan and tracing phase): no Extract call may start afterwards; non-trivial = a path is within the limit in the final view and above it in an earlier view, or work remained after a cancellation instant; distinct = distinct scenario JSON"
+	return "(image) MaxFileBytes = L in {1,7,512}; 1-4 layers (empty history entries interleaved, broken histories included) whose archives hold regular files of size L-1, L, L+1, 2L (and a few unrelated sizes) over <=6 paths, rewritten across layers and now and then twice within one archive, seeded stream chunking; loaded with the real FromV1Image (simulated v1.Image) or FromTarball (real docker-save tarball); evaluation = one image load + observation of every chain-layer view (recursive walk and direct Stat/Open of every path) + snapshot of ExtractDir while the image is alive; non-trivial = the image holds at least one file of size >= L and one below. Container-scan configuration (1 in 3 scenarios): 2-5 layers rewriting 1-2 package-list files with 0-7 nine-byte lines each (deleted / re-created in between) so that the size of a path crosses MaxFileSize = L in {15, 30, 45} between layers; real Scanner.ScanContainer (main scan + trace.PopulateLayerDetails re-running filesystem.Run on older views) optionally a symlink to a list file that the extractor requires too and ReadSymlinks (3 in 4); a harness extractor records Info.Size() and the bytes it could read for EVERY file it is handed; then cancel() is delivered from inside the k-th Extract call for EVERY k of the fault-free run (main scan and tracing phase): no Extract call may start afterwards, and the scan must not report success when extractions of the fault-free run remained; non-trivial = a path is within the limit in the final view and above it in an earlier view, or work remained after a cancellation instant; distinct = distinct scenario JSON"
 }
 
 var c10Paths = []string{"a", "b", "d/a", "d/b", "d/e/a", "x"}
@@ -233,6 +233,7 @@ func runC10Scan(sc *C10Scenario, out *sim.Outcome) *sim.Outcome {
 	}
 	defer img.CleanUp()
 	required := append(append([]string(nil), c10ScanFiles...), c10ScanLink)
+	var lastAttribution string
 	scan := func(cancelAt int) ([]extractRec, bool) {
 		var recs []extractRec
 		ctx, cancel := context.WithCancel(context.Background())
@@ -248,6 +249,15 @@ func runC10Scan(sc *C10Scenario, out *sim.Outcome) *sim.Outcome {
 		res, err := scalibr.New().ScanContainer(ctx, img, &scalibr.ScanConfig{
 			FilesystemExtractors: []filesystem.Extractor{x}, MaxFileSize: int(sc.L), ReadSymlinks: sc.ReadSymlinks})
 		ok := err == nil && res.Status != nil && res.Status.Status == plugin.ScanStatusSucceeded
+		var attr []string
+		if res != nil {
+			for _, p := range res.Inventory.Packages {
+				if p.LayerDetails != nil {
+					attr = append(attr, fmt.Sprintf("%s@%s:%d", p.Name, p.Version, p.LayerDetails.Index))
+				}
+			}
+		}
+		lastAttribution = strings.Join(attr, " ")
 		return recs, ok
 	}
 	recs, ok := scan(0)
@@ -302,6 +312,17 @@ func runC10Scan(sc *C10Scenario, out *sim.Outcome) *sim.Outcome {
 
 	// cancellation at every Extract call of the fault-free run
 	n := len(recs)
+	freeAttribution := lastAttribution
+	// the main scan extracts every path once; the first repeated path starts the tracing phase
+	nMain := 0
+	seenPath := map[string]bool{}
+	for _, r := range recs {
+		if seenPath[r.Path] {
+			break
+		}
+		seenPath[r.Path] = true
+		nMain++
+	}
 	ks := sc.Cancels
 	if len(ks) == 0 {
 		for k := 1; k <= n && k <= 12; k++ {
@@ -314,7 +335,15 @@ func runC10Scan(sc *C10Scenario, out *sim.Outcome) *sim.Outcome {
 		}
 		out.Executions++
 		out.Count("fault_planned_cancel_in_extract", 1)
-		crecs, _ := scan(k)
+		crecs, cok := scan(k)
+		if cok && k < n && len(crecs) >= k {
+			phase := "main-scan"
+			if k >= nMain {
+				phase = "layer-tracing"
+			}
+			out.Violate("cancel-not-reported", "cancel-not-reported:"+phase, "the scan context was cancelled inside Extract call %d of %d (the main scan makes %d of them); the remaining extractions did not happen, yet ScanContainer reports SUCCEEDED and no error; layer attribution with the cancellation [%s], without it [%s]; %s",
+				k, n, nMain, lastAttribution, freeAttribution, ctxs)
+		}
 		if len(crecs) >= k {
 			out.Count("fault_fired_cancel_in_extract", 1)
 		}
@@ -339,5 +368,6 @@ func runC10Scan(sc *C10Scenario, out *sim.Outcome) *sim.Outcome {
 		}
 	}
 	out.HistoryFP = sim.FP(hist)
+	dedupeByKey(out)
 	return out
 }
